@@ -31,6 +31,10 @@ LAKE_TARGETS = ["SharkVerif.Props.C13", "drv_c13"]
 REPO_SOURCES = ["src/Core/Random.cpp"]
 
 
+def translate(ctx):
+    return ctx.translate("ssp_point_less.py")
+
+
 def build(ctx):
     return ctx.harness("c13", ["c13.cpp"], repo_sources=REPO_SOURCES)
 
@@ -186,6 +190,14 @@ def shrink_line(line, fails, budget=150):
 def classify(ops, res):
     op = ops[0].split()
     tag = op[0] + (":" + op[1] + ":" + op[2] if op[0] == "con" else "") + (":m" + op[1] if op[0] in ("sort", "hv") else "")
+    if res.crash and op[0] == "ssp" and "HypervolumeSubsetSelection2D::Point" in res.stderr and \
+            re.search(r"std::__(unguarded_partition|introsort_loop|insertion_sort|unguarded_linear_insert)", res.stderr):
+        d = parse_line(ops[0])
+        a_type = {}
+        for p in d["P"]:
+            if p[1] - d["ref"][1] < p[0] - d["ref"][0]: a_type[p[0]] = a_type.get(p[0], 0) + 1
+        if len(d["P"]) > 16 and any(c >= 2 for c in a_type.values()):
+            return "C13-SSP-LEXLESS:sort-overflow:ssp", f"std::sort with the inconsistent Point::operator< left the vector on {ops}"
     if res.crash:
         m = re.search(r"SUMMARY: \w+: (\S+)[^\n]*? in (?:\w+ )*(?:shark::)?(\w+)|runtime error: ([^\n]*)", res.stderr)
         t = (f"{m.group(1)}@{m.group(2)}" if m.group(1) else m.group(3)) if m else ("timeout" if "TIMEOUT" in res.stderr else "crash")
@@ -265,6 +277,7 @@ def run(ctx):
     ctx.assumptions += ["points have integer coordinates (exactly representable doubles); all vectors of a call have equal dimension",
                         "the reference point is weakly dominated by every point (C++ documented precondition)",
                         "contribution queries: mutually non-dominated sets (duplicates allowed), 0 <= k <= n; subset selection: 1 <= k <= number of distinct non-dominated points"]
+    translate(ctx)
     ctx.prove(["SharkVerif.Props.C13"])
     if not ctx.quick:
         ctx.leanchecker(["SharkVerif.Props.C13"])
